@@ -1,45 +1,31 @@
 package vsim
 
 import (
-	"fmt"
 	"testing"
-	"time"
 
 	spectypes "github.com/bloxapp/ssv-spec/types"
 )
 
+// TestSmoke: every honest stream is accepted by a fresh real validator in both envelope phases (Known4 / Known7) and
+// refused for the liquidated validator. Run: go test -tags verif -overlay /verif/build/overlay/overlay.json -vet=off ./internal/vsim/
 func TestSmoke(t *testing.T) {
-	t0 := time.Now()
-	w := NewWorld()
-	fmt.Println("world", time.Since(t0))
-	for _, post := range []bool{false, true} {
-		for _, kind := range []ValKind{Known4, Known7, Liquidated} {
-			for _, role := range AllRoles {
-				for _, prof := range []Profile{{1, 0}, {3, 2}, {6, 3}, {12, 0}, {12, 2}} {
-					if (prof.Target > 1 && (role != spectypes.BNRoleAttester && role != spectypes.BNRoleProposer)) || prof.Target > int(MaxRound(role)) || (prof.Target > 6 && kind != Known4) {
-						continue
+	for _, native := range []int{4, 7} {
+		w := NewWorldNative(native)
+		for _, post := range []bool{false, true} {
+			for _, kind := range []ValKind{Known4, Known7, Liquidated} {
+				for _, role := range []spectypes.BeaconRole{spectypes.BNRoleAttester, spectypes.BNRoleProposer, spectypes.BNRoleVoluntaryExit} {
+					prof := Profile{Target: 1}
+					if kind == Known4 && role == spectypes.BNRoleAttester {
+						prof = Profile{Target: 3, PreparedFrom: 2}
 					}
-					v := w.Vals[kind]
-					t1 := time.Now()
-					ms := w.Duty(v, role, w.BaseSlot()+5, prof)
-					gen := time.Since(t1)
+					ms := w.Duty(w.Vals[kind], role, w.BaseSlot()+5, prof)
 					p := w.NewPeer(post, 1)
-					acc := 0
-					t1 = time.Now()
 					for _, m := range ms {
 						r := w.ValidateAt(p.MV, m.Pubsub(w, post), m.At)
-						if r.Accepted() {
-							acc++
-						} else if kind != Liquidated {
-							fmt.Printf("   NOT ACCEPTED %s from %d at +%v: %v\n", m.Tag, m.Sender, m.At.Sub(w.Beacon.GetSlotStartTime(m.Slot)), r.Err)
+						if r.Accepted() != (kind != Liquidated) {
+							t.Fatalf("native=%d post=%v %s %v %s from %d: accepted=%v err=%v", native, post, kind, role, m.Tag, m.Sender, r.Accepted(), r.Err)
 						}
 					}
-					if !post && kind == Known4 && prof.Target == 3 {
-						for _, m := range ms {
-							fmt.Printf("      %s from %d +%v\n", m.Tag, m.Sender, m.At.Sub(w.Beacon.GetSlotStartTime(m.Slot)))
-						}
-					}
-					fmt.Printf("post=%v %s role=%v prof=%s msgs=%d accepted=%d gen=%v val=%v\n", post, kind, role, prof, len(ms), acc, gen, time.Since(t1))
 				}
 			}
 		}
